@@ -347,7 +347,7 @@ def main(run: Run):
     # vacuity guards: every family must have been exercised, most configurations accepted, and almost every
     # explored configuration must have shown more than one output vector
     explored = run.counters.get("configs_ok", 0) + run.counters.get("configs_violation", 0)
-    timing_violation = run.counters.get("configs_violation", 0) + run.counters.get("configs_static", 0) > 0
+    timing_violation = bool(run.violations)  # unknown violations only: known findings must not switch the guards off
     if not timing_violation:
         # (with a violation the exploration of that configuration stops early: the guards would mask the verdict)
         if explored * 2 < len(cfgs):
